@@ -95,3 +95,99 @@ Section Machine.
     destruct (tstep begin mstep fatal (sh cf) th) as [[s' t'] e]. simpl. apply upd_length.
   Qed.
 End Machine.
+
+(* ---------------------------------------------------------------- lockstep simulation
+   Two machines over the same shared memory, calls, results and observations whose locals are
+   related by R: related at call entry, R preserved by every micro-step with equal memory
+   effects and results, equal sites.  Then for every client program and schedule the two
+   executions have the same memory and the same trace, and related threads.                  *)
+Section Sim.
+  Variables Sh L1 L2 Call Ret Obs : Type.
+  Variable b1 : Call -> L1.
+  Variable b2 : Call -> L2.
+  Variable m1 : Call -> L1 -> Sh -> Sh * (L1 + Ret).
+  Variable m2 : Call -> L2 -> Sh -> Sh * (L2 + Ret).
+  Variable fatal : Ret -> bool.
+  Variable observe : Sh -> Obs.
+  Variable site1 : Call -> L1 -> nat.
+  Variable site2 : Call -> L2 -> nat.
+  Variable R : Call -> L1 -> L2 -> Prop.
+
+  Definition step_rel (c : Call) (o1 : Sh * (L1 + Ret)) (o2 : Sh * (L2 + Ret)) : Prop :=
+    fst o1 = fst o2 /\
+    match snd o1, snd o2 with
+    | inl l1, inl l2 => R c l1 l2
+    | inr r1, inr r2 => r1 = r2
+    | _, _ => False
+    end.
+
+  Hypothesis Rb : forall c, R c (b1 c) (b2 c).
+  Hypothesis Rs : forall c l1 l2, R c l1 l2 -> site1 c l1 = site2 c l2.
+  Hypothesis Rm : forall c l1 l2 s, R c l1 l2 -> step_rel c (m1 c l1 s) (m2 c l2 s).
+
+  Definition trel (t1 : tstate L1 Call) (t2 : tstate L2 Call) : Prop :=
+    match t1, t2 with
+    | Idle a, Idle b => a = b
+    | Run c l1 a, Run c' l2 b => c = c' /\ a = b /\ R c l1 l2
+    | _, _ => False
+    end.
+
+  Definition csim (c1 : config Sh L1 Call Ret Obs) (c2 : config Sh L2 Call Ret Obs) : Prop :=
+    sh c1 = sh c2 /\ tr c1 = tr c2 /\ Forall2 trel (thr c1) (thr c2).
+
+  Lemma Forall2_nth : forall A B (P : A -> B -> Prop) l1 l2 i, Forall2 P l1 l2 ->
+    match nth_error l1 i, nth_error l2 i with
+    | Some a, Some b => P a b
+    | None, None => True
+    | _, _ => False
+    end.
+  Proof.
+    intros A B P l1 l2 i H. revert i. induction H; intros [|i]; simpl; auto. apply IHForall2.
+  Qed.
+
+  Lemma Forall2_upd : forall A B (P : A -> B -> Prop) l1 l2 i a b, Forall2 P l1 l2 -> P a b ->
+    Forall2 P (upd l1 i a) (upd l2 i b).
+  Proof.
+    intros A B P l1 l2 i a b H Hab. revert i. induction H; intros [|i]; simpl; constructor; auto.
+  Qed.
+
+  Let step1 := step b1 m1 fatal observe site1.
+  Let step2 := step b2 m2 fatal observe site2.
+
+  Lemma csim_step : forall c1 c2 tid, csim c1 c2 -> csim (step1 c1 tid) (step2 c2 tid).
+  Proof.
+    intros c1 c2 tid (Hs & Ht & Hf). unfold step1, step2, step.
+    pose proof (Forall2_nth _ _ _ _ _ tid Hf) as Hn.
+    destruct (nth_error (thr c1) tid) as [t1|]; destruct (nth_error (thr c2) tid) as [t2|];
+      try contradiction.
+    2:{ unfold csim; simpl. split; [exact Hs|]. split; [|exact Hf]. rewrite Hs, Ht. reflexivity. }
+    destruct t1 as [[|c todo]|c l1 todo]; destruct t2 as [[|c' todo']|c' l2 todo'];
+      simpl in Hn; try contradiction; try discriminate.
+    - unfold csim; simpl. split; [exact Hs|]. split; [rewrite Hs, Ht; reflexivity|].
+      apply Forall2_upd; [exact Hf|simpl; reflexivity].
+    - inversion Hn; subst c' todo'. unfold csim; simpl. split; [exact Hs|]. split.
+      + rewrite Hs, Ht, (Rs _ _ _ (Rb c)). reflexivity.
+      + apply Forall2_upd; [exact Hf|simpl; auto].
+    - destruct Hn as (<- & <- & Hr). simpl.
+      pose proof (Rm c l1 l2 (sh c1) Hr) as Hm. rewrite <- Hs.
+      destruct (m1 c l1 (sh c1)) as [s1 [l1'|r1]]; destruct (m2 c l2 (sh c1)) as [s2 [l2'|r2]];
+        destruct Hm as [Hfst Hsnd]; simpl in Hfst, Hsnd; try contradiction; subst s2.
+      + unfold csim; simpl. split; [reflexivity|]. split.
+        * rewrite Ht, (Rs _ _ _ Hsnd). reflexivity.
+        * apply Forall2_upd; [exact Hf|simpl; auto].
+      + subst r2. unfold csim; simpl. split; [reflexivity|]. split.
+        * rewrite Ht. reflexivity.
+        * apply Forall2_upd; [exact Hf|simpl; reflexivity].
+  Qed.
+
+  Theorem sim_exec : forall s0 progs sched,
+    csim (exec b1 m1 fatal observe site1 s0 progs sched)
+         (exec b2 m2 fatal observe site2 s0 progs sched).
+  Proof.
+    intros s0 progs sched. induction sched as [|t sched IH] using rev_ind.
+    - unfold exec, run, init, csim. simpl. split; [reflexivity|]. split; [reflexivity|].
+      induction progs; simpl; constructor; auto. simpl. reflexivity.
+    - unfold exec in *. unfold run in *. rewrite !fold_left_app. simpl.
+      apply csim_step. exact IH.
+  Qed.
+End Sim.
